@@ -636,11 +636,13 @@ func handle(h Hooks, t e1.Task) (*e1.Result, map[uint64]struct{}) {
 				switch x.Outcome {
 				case vsched.OutPanic:
 					v.Violation = "panic: " + x.PanicVal
-				case vsched.OutDeadlock, vsched.OutLeak:
+				case vsched.OutDeadlock:
 					v.Violation = fmt.Sprintf("%s: %v", x.Outcome, x.Blocked)
 				case vsched.OutHorizon:
 					v.Violation = "livelock: step horizon exceeded"
 				default:
+					// goroutines still blocked when the worker's rows are in are ended by the process exit in the real tool
+					v.Persistent = x.Outcome == vsched.OutLeak && !x.LeakFromOnce
 					if len(rows) != 1 {
 						v.Violation = fmt.Sprintf("%d rows for one file", len(rows))
 						break
